@@ -15,10 +15,10 @@ ID = 'C18'
 LEAN_MODULE = 'PncProofs.C18'
 LEAN_FILE = 'PncProofs/C18.lean'
 NAMESPACE = 'Props.C18'
-LEAN_CONE = ['PncModel.Words', 'PncModel.Bpch', 'PncProofs.WordsLemmas', 'PncProofs.C18']
+LEAN_CONE = ['PncModel.Generated.BpchHeaders', 'PncModel.Words', 'PncModel.Bpch', 'PncProofs.WordsLemmas', 'PncProofs.C18']
 LEMMA_FILES = ['PncProofs/WordsLemmas.lean']
 REQUIRED_THEOREMS = ['tiles', 'groupSteps_flatten', 'refDecode_encode', 'repeat_breaks_grouping', 'resolve_listed',
-                     'resolve_unlisted']
+                     'resolve_unlisted', 'header_layout_matches_source']
 RULE = ('bpch files of 1-3 time steps, 1-4 (category, tracer) blocks per step from five categories with different '
         'offsets, 1-3 layers per tracer, nested-grid start offsets, any float32 payload; tracerinfo/diaginfo tables '
         'with scale factors 1e9 / 1 / 0.5, optionally without the line of a tracer: (1) bytes of the python '
